@@ -58,7 +58,10 @@ def st_case():
             elif sd:
                 p[1] = '1'
         kwo = [['k%d%d' % (i, j), draw(st.sampled_from([None, '2']))] for j in range(nkw)]
-        kind = draw(st.sampled_from(['decorator', 'decorator', 'wrapper_decorator']))
+        kind = draw(st.sampled_from(['decorator', 'decorator', 'decorator', 'wrapper_decorator', 'wrapper_decorator', 'classic']))
+        if kind == 'classic':
+            # a hand-written functools.wraps pass-through layer between (or around) the sigtools ones
+            pos, kwo = [], []
         return {'kind': kind, 'pos': pos, 'kwo': kwo, 'n': 0, 'names': []}
 
     @st.composite
@@ -101,6 +104,7 @@ def st_case():
                 dd['n'] = draw(st.integers(0, 1))
         return {'what': 'stack', 'decos': decos, 'spec': [list(p) for p in spec], 'placement': placement,
                 'selfname': draw(st.sampled_from(['self', 'self', 'this'])),
+                'stepwise': draw(st.integers(0, 2)) == 0, 'falsy': draw(st.integers(0, 2)) == 0,
                 'wrapped': draw(st.sampled_from(['plain', 'plain', 'plain', 'forwards_to', 'forwards_to_emulate', 'kwoargs']))}
     return build()
 
@@ -118,6 +122,13 @@ def normalise(case):
         if dd['kind'] != 'wrapper_decorator' or not inner_most or case['placement'] == 'method':
             dd['n'] = 0
         dd['n'] = min(dd['n'], cap)
+    # hand-written pass-through layers: not on methods (Python binds the outermost plain function itself, so the instance
+    # travels through every layer as an ordinary first argument -- another composition than the one sigtools' descriptors
+    # implement), and never as the only layers
+    if case['placement'] == 'method' or all(dd['kind'] == 'classic' for dd in case['decos']):
+        for dd in case['decos']:
+            if dd['kind'] == 'classic':
+                dd['kind'] = 'decorator'
     case.setdefault('wrapped', 'plain')
     if case['placement'] != 'function' or (case['wrapped'] == 'kwoargs' and not any(p.kind == POK for p in spec)):
         case['wrapped'] = 'plain'
@@ -155,6 +166,9 @@ def render(case):
                     [Par(n, KWO, d) for n, d in dd['kwo']] + [Par('kwargs', VK)])
         loc = ', '.join('%r: %s' % (n, n) for n, d in dd['pos'] + dd['kwo'])
         consts = ''.join('%d, ' % (700 + j) for j in range(dd['n']))
+        if dd['kind'] == 'classic':
+            src += ('def D%d(f):\n    @functools.wraps(f)\n    def _classic%d(*args, **kwargs):\n        return f(*args, **kwargs)\n    return _classic%d\n' % (i, i, i))
+            continue
         body = 'def d%d(%s):\n    return ("d%d", {%s}, func(%s*args, **kwargs))\n' % (i, universe.spec_text(own), i, loc, consts)
         src += body
         if dd['kind'] == 'decorator':
@@ -177,7 +191,10 @@ def render(case):
             src += 'def plain(%s):\n    if RAISE[0]:\n        raise UserErr(7)\n    return ("f", {%s})\n' % (universe.spec_text(spec), rec)
             if wk == 'kwoargs':
                 src += 'from sigtools import modifiers\nplain = modifiers.kwoargs(%r)(plain)\n' % [p.name for p in spec if p.kind == POK][-1]
-        src += 'target = plain\n' + ''.join('target = D%d(target)\n' % i for i in reversed(range(len(case['decos']))))
+        # stepwise: the signature of every intermediate layer is retrieved before the next decorator is applied
+        peek = ('import sigtools as _st, inspect as _ins\nfor _get in (_st.signature, _ins.signature):\n    try:\n        _get(target)\n'
+                '    except Exception:\n        pass\n') if case.get('stepwise') else ''
+        src += 'target = plain\n' + ''.join('target = D%d(target)\n%s' % (i, peek) for i in reversed(range(len(case['decos']))))
         src += 'TARGETS = [("function", target, None)]\n'
     else:
         has_po = any(p.kind == PO for p in spec)
@@ -190,9 +207,11 @@ def render(case):
         fn = 'def plain(%s):\n    if RAISE[0]:\n        raise UserErr(7)\n    return ("f", {%s})\n' % (universe.spec_text(sp), rec2)
         src += fn
         stat = '@staticmethod\n' if case['placement'] == 'staticmethod' else ''
-        src += 'class K(object):\n    tag = "inst"\n' + ''.join('    ' + l for l in (stat + decos + fn.replace('def plain(', 'def m(')).splitlines(True))
+        # falsy: instances that are false in a boolean context (an empty container) are instances all the same
+        falsy = '    def __len__(self):\n        return 0\n' if case.get('falsy') else ''
+        src += 'class K(object):\n    tag = "inst"\n' + falsy + ''.join('    ' + l for l in (stat + decos + fn.replace('def plain(', 'def m(')).splitlines(True))
         src += 'INST = K()\nTARGETS = [("instance", INST.m, None), ("class", K.m, %r)]\n' % (case['selfname'] if case['placement'] == 'method' else None)
-    src += 'DECOS = [%s]\n' % ', '.join('d%d' % i for i in range(len(case['decos'])))
+    src += 'DECOS = [%s]\n' % ', '.join('d%d' % i for i, dd in enumerate(case['decos']) if dd['kind'] != 'classic')
     return src
 
 
@@ -241,6 +260,10 @@ def check_case(case, stats):
         spec = tuple(Par(*p) for p in case['spec'])
         sigs = {}
         own_pos = any(dd['pos'] for dd in case['decos'])
+        seen = [n for dd in case['decos'] for n, d in dd['pos'] + dd['kwo']]
+        shared_names = len(seen) != len(set(seen))
+        if shared_names:
+            stats.cls('stack/layers-share-a-parameter-name')
         for form, target, selfname in g['TARGETS']:
             ref = reference(g, case, form)
             tag = '%s/%s' % (case['placement'], form)
@@ -248,11 +271,33 @@ def check_case(case, stats):
                 R = sigtools.signature(target)
                 I = inspect.signature(target)
             except Exception as e:
+                if shared_names and isinstance(e, ValueError):
+                    # an explicit wrapper_decorator declaration that cannot be honoured surfaces as ValueError (C07)
+                    stats.cls('stack/layers-share-a-parameter-name/declaration-raises')
+                    continue
                 stats.fail('C13/retrieval-raised/%s/%s' % (tag, type(e).__name__), dict(case, form=form),
                            'signature retrieval of the %s target raised %s: %s\n%s' % (form, type(e).__name__, e, src))
                 continue
             sigs[form] = R
             stats.cls('stack/%s/depth-%d/%s' % (tag, len(case['decos']), case.get('wrapped', 'plain')))
+            fallback = False
+            if case['decos'][0]['kind'] == 'classic':
+                # the outermost layer is a plain function: not an object built by sigtools; held to call transparency and
+                # to the wrappers list only
+                fallback = True
+                sigs.pop(form)
+                stats.cls('stack/outermost-layer-hand-written')
+            if shared_names:
+                # embed cannot express two parameters of one name: discovery falls back to the outermost layer's own
+                # signature (the fallback C05 and C07 allow); the call-transparency clauses still apply
+                from sigtools import signatures
+                try:
+                    fallback = pview(R) == pview(signatures.signature(target))
+                except Exception:
+                    fallback = False
+                if fallback:
+                    stats.cls('stack/layers-share-a-parameter-name/fallback')
+                    sigs.pop(form)
             # the same retrievals from a thread that never touched sigtools before
             import threading
             box = {}
@@ -312,9 +357,9 @@ def check_case(case, stats):
                             failed = True
                             break
                         noncoll = all((k in kp) or (k not in alln) for k in K)
-                        if noncoll and rb.accepts(npos, K):
+                        if noncoll and rb.accepts(npos, K) and not fallback:
                             if got_o[0] == 'TypeError':
-                                stats.fail('C13/incoherent/sigtools/%s' % tag, dict(case, form=form, shape=[npos, list(K)]),
+                                stats.fail('C13/incoherent/sigtools/%s' % ('layers-share-a-parameter-name' if shared_names else tag), dict(case, form=form, shape=[npos, list(K)]),
                                            'sigtools.signature(%s target) = %s accepts the non-colliding call with %d positionals and keywords %s, which raises TypeError\n%s' % (
                                                form, R, npos, list(K), src))
                                 failed = True
@@ -322,8 +367,8 @@ def check_case(case, stats):
                             if own_names & (set(K) | set(n for n, k, d in rview[:npos] if k in (PO, POK))):
                                 used_own += 1
                         ikp = cpbind.kwpassable(iview)
-                        if all((k in ikp) or (k not in alln) for k in K) and ib.accepts(npos, K) and got_o[0] == 'TypeError':
-                            stats.fail('C13/incoherent/inspect/%s' % tag, dict(case, form=form, shape=[npos, list(K)]),
+                        if all((k in ikp) or (k not in alln) for k in K) and ib.accepts(npos, K) and got_o[0] == 'TypeError' and not fallback:
+                            stats.fail('C13/incoherent/inspect/%s' % ('layers-share-a-parameter-name' if shared_names else tag), dict(case, form=form, shape=[npos, list(K)]),
                                        'inspect.signature(%s target) = %s accepts the non-colliding call with %d positionals and keywords %s, which raises TypeError\n%s' % (
                                            form, I, npos, list(K), src))
                             failed = True
@@ -368,7 +413,7 @@ def check_case(case, stats):
                 want = u_[1:]
                 ok = want == b_ and bool(u_) and u_[0][0] == sn
             if not ok:
-                stats.fail('C13/binding/%s' % ('own-positional' if own_pos else 'first-parameter'), case,
+                stats.fail('C13/binding/%s' % ('layers-share-a-parameter-name' if shared_names else 'own-positional' if own_pos else 'first-parameter'), case,
                            'signature on the class is %s, on the instance %s: binding should remove exactly %s\n%s' % (
                                sigs['class'], sigs['instance'], 'the parameter %r' % sn if own_pos else 'the first parameter', src))
             else:
@@ -434,10 +479,33 @@ def shard_hyp(arg):
     return st
 
 
+def shared_name_cases():
+    """Stacks in which two layers spell one of their own parameters alike (the same decorator applied twice, say): a fixed
+    list, run outside the Hypothesis search."""
+    out = []
+    for kinds in (('decorator', 'decorator'), ('decorator', 'wrapper_decorator'), ('wrapper_decorator', 'decorator')):
+        for pos, kwo in (([['p', None]], []), ([], [['k', None]]), ([], [['k', '2']]), ([['p', '1']], [['k', '2']])):
+            for placement in ('function', 'method'):
+                decos = [{'kind': k, 'pos': [list(x) for x in pos], 'kwo': [list(x) for x in kwo], 'n': 0, 'names': []} for k in kinds]
+                out.append({'what': 'stack', 'decos': decos, 'spec': [['x', POK, None, None], ['y', POK, '1', None]], 'placement': placement,
+                            'selfname': 'self', 'stepwise': False, 'falsy': False, 'wrapped': 'plain'})
+    return out
+
+
+def shard_shared(arg):
+    cases, = arg
+    st = Stats()
+    for c in cases:
+        check_case(c, st)
+    return st
+
+
 def run(ctx):
     total = Stats()
     n = ctx.pick(1600, 32000)
     total.merge(ctx.pmap(shard_hyp, [(s, n // 16) for s in ctx.shard_seeds(16)]))
+    sc = shared_name_cases()
+    total.merge(ctx.pmap(shard_shared, [(sc[i::8],) for i in range(8)]))
     return total
 
 
